@@ -5,7 +5,8 @@ CONTRACT_MODULES = ['contracts.evals', 'contracts.binary']
 CONE = ['csep.core.binomial_evaluations.binary_joint_log_likelihood_ndarray', 'csep.core.brier_evaluations._brier_score_ndarray',
         'csep.core.binomial_evaluations._binary_likelihood_test', 'csep.core.brier_evaluations._brier_score_test',
         'csep.core.binomial_evaluations.binary_spatial_test', 'csep.core.binomial_evaluations.binary_conditional_likelihood_test',
-        'csep.core.brier_evaluations.brier_score_test']
+        'csep.core.brier_evaluations.brier_score_test',
+        'csep.core.poisson_evaluations.binary_spatial_likelihood', 'csep.core.poisson_evaluations.poisson_spatial_likelihood']
 ORACLE_MODULES = ['rt.oracles_eval', 'rt.oracles_contracts']
 BOUNDED = os.path.exists(os.path.join(os.path.dirname(__file__), '..', 'rt', 'bounded_C16.py'))
 FLOAT_MODEL = 'R; log/exp uninterpreted; 1 - poisson.cdf(0, lam) = 1 - exp(-lam) (assumed cdf fact)'
